@@ -1008,6 +1008,13 @@ def sec_landscape_upsampled(rec, kind="zncc", box=(6, 5, 7), axis=0, u=4, others
         rec.fact(f"{tag}/runs", False, key=f"C04/{kind}/landscape-upsampled-raises", detail={"exc": repr(paths[0].exc)[:200] if paths else "no path"}, reproduced=rpl({})[0])
 
 
+def sec_sampling_rule(rec, patches=None):
+    """the sub-volume handed to the model is the tomogram sampled on the molecule's grid, also when the crop window crosses a face of the tomogram (executed by C02's sampling section)"""
+    from .c02 import sec_sampling
+
+    sec_sampling(rec, order=1, corner_safe=False, patches=patches)
+
+
 def sec_loader_units(rec, patches=None):
     """the loaders hand the model max_shifts in pixels of their own scale (executed by C01's units section): a wrong window clips or widens the search range"""
     from .c01 import sec_units
@@ -1017,7 +1024,7 @@ def sec_loader_units(rec, patches=None):
 
 def sections(tier):
     q = quick(tier)
-    secs = [("loader-units", "checks.c04", "sec_loader_units", {})]
+    secs = [("loader-units", "checks.c04", "sec_loader_units", {}), ("sampling-rule", "checks.c04", "sec_sampling_rule", {})]
     sem_shapes = (((1, 1, 3), 2), ((1, 2, 2), 1), ((2, 1, 2), 0)) if q else (((1, 1, 3), 2), ((1, 2, 2), 1), ((2, 1, 2), 0), ((1, 1, 4), 2), ((3, 1, 1), 0), ((1, 3, 2), 1), ((2, 2, 2), 0), ((2, 2, 3), 2), ((1, 2, 4), 2))
     for kind in ("zncc", "ncc"):
         for shape, axis in sem_shapes:
